@@ -517,6 +517,18 @@ func (g *c09PoolGen) goodDefault() C09Ent {
 	return e
 }
 
+// c09Ctx draws a context.  Two thirds come from a stock of three seeds, so
+// that entries of ONE batch - an Ed25519ctx one and an Ed25519ph one in
+// particular - often carry the SAME context string (whatever a verifier
+// remembers per context must also be keyed by the variant).
+func c09Ctx(t *rapid.T, lens []int) Hex {
+	seed := rapid.Uint64().Draw(t, "ctxseed")
+	if rapid.IntRange(0, 2).Draw(t, "ctxstock") != 0 {
+		seed = 1 + seed%3
+	}
+	return Hex(Expand(seed, rapid.SampledFrom(lens).Draw(t, "ctxlen")))
+}
+
 // goodOwn: valid under its own (cofactored) options only.
 func (g *c09PoolGen) goodOwn() C09Ent {
 	t := g.t
@@ -525,7 +537,7 @@ func (g *c09PoolGen) goodOwn() C09Ent {
 		e := g.base(g.keyOf("honest", "mixed"))
 		e.I = g.torsionI()
 		e.Var = 1
-		e.Ctx = Hex(Expand(rapid.Uint64().Draw(t, "ctxseed"), rapid.SampledFrom([]int{1, 2, 32, 254, 255}).Draw(t, "ctxlen")))
+		e.Ctx = c09Ctx(t, []int{1, 2, 32, 254, 255})
 		e.Opt = c09GenOpt(t, 0, "opt")
 		e.Opt.Ctx = e.Ctx
 		e.Cls = "good/ctx"
@@ -535,7 +547,7 @@ func (g *c09PoolGen) goodOwn() C09Ent {
 		e.I = g.torsionI()
 		e.Var = 2
 		e.MsgLen = 64
-		e.Ctx = Hex(Expand(rapid.Uint64().Draw(t, "ctxseed"), rapid.SampledFrom([]int{0, 0, 1, 255}).Draw(t, "ctxlen")))
+		e.Ctx = c09Ctx(t, []int{0, 0, 1, 2, 32, 255})
 		e.Opt = c09GenOpt(t, 0, "opt")
 		e.Opt.Ctx = e.Ctx
 		e.Opt.Hash = 1
